@@ -6,6 +6,9 @@ A case is a forest of scripted events.  Every event has a unique label (>= 1), f
 handler scripts, invoked in list order (distinct descending priorities):
 
   {'t': 'p', 'k': [events fired], 'r': R}                     plain handler; R: None | 'x' (raise) | int | [ints]
+                                                              ('xk' with a raise, also of a generator: what is raised,
+                                                              0 an Exception subclass, 1 a BaseException subclass that is
+                                                              not an Exception, 2 GeneratorExit)
                                                               | {'nest': event}: `return self.fire(event)`, i.e. the
                                                               handler fires a nested event and returns its Value;
                                                               optional 'st': 1 = the handler calls event.stop() first
@@ -37,6 +40,16 @@ KINDS = {'success': 0, 'failure': 1, 'value_changed': 3}
 
 class Scripted(RuntimeError):
     pass
+
+
+class ScriptedBase(BaseException):
+    """cancellation-style exception: derives from BaseException, not from Exception"""
+
+
+# what a raising handler raises ('xk' of the handler script): circuits treats every exception other than
+# SystemExit / KeyboardInterrupt (C08's business, never scripted here) alike
+RAISE_KINDS = [Scripted, ScriptedBase, GeneratorExit]
+KIND_STAT = ['raise_kind_exception', 'raise_kind_baseexception', 'raise_kind_generatorexit']
 
 
 class OrderedTasks(set):
@@ -231,7 +244,7 @@ def run_script(case):
             for ch in hd['k']:
                 fire_child(ch)
             if hd['r'] == 'x':
-                raise Scripted('scripted failure')
+                raise RAISE_KINDS[hd.get('xk', 0)]('scripted failure')
             if is_nest(hd['r']):
                 fire_child(hd['r']['nest'])
                 return vals[hd['r']['nest']['l']]
@@ -252,7 +265,7 @@ def run_script(case):
             for ch in hd['k']:
                 fire_child(ch)
             if hd['x']:
-                raise Scripted('scripted failure in generator')
+                raise RAISE_KINDS[hd.get('xk', 0)]('scripted failure in generator')
             return fresh(hd.get('ret'))
         fn.__name__ = 'g_%d_%d' % (L, i)
         return fn
@@ -277,13 +290,19 @@ def run_script(case):
             fire_child(spec)
         rot = case.get('rot') or [0]
         sched, quiet, t = [], False, 0
+        escaped = []
         for t in range(MAXTICKS):
             if not len(app) and not len(common.get_tasks(app)):
                 quiet = True
                 break
             tasks.rot = rot[t % len(rot)]
             mark = len(log)
-            app.tick()
+            try:
+                app.tick()
+            except KeyboardInterrupt:
+                raise
+            except BaseException as exc:    # nothing a scripted handler raises may leave the loop
+                escaped.append(type(exc).__name__)
             sched.append([[x[1], x[2]] for x in log[mark:] if x[0] == 1])
     finally:
         app._executing_thread = None
@@ -292,7 +311,7 @@ def run_script(case):
         v = vals[l]
         final.append([l, canon_val(v.getValue(False)), bool(v.errors), bool(v.result), bool(v.promise),
                       int(objs[l].waitingHandlers)])
-    return {'log': log, 'final': final, 'quiet': quiet, 'sched': sched, 'ticks': t}
+    return {'log': log, 'final': final, 'quiet': quiet, 'sched': sched, 'ticks': t, 'escaped': escaped}
 
 
 # ------------------------------------------------------------------------------------ Coq literals
@@ -324,11 +343,11 @@ def coq_hd(h):
         if is_nest(h['r']):
             r = 'RNest (%s)' % coq_ev(h['r']['nest'])
         else:
-            r = 'RRaise' if h['r'] == 'x' else 'RRet %s' % coq_py(h['r'])
+            r = 'RRaiseK %d' % h.get('xk', 0) if h['r'] == 'x' else 'RRet %s' % coq_py(h['r'])
         if h.get('st'):
             r = 'RStop (%s)' % r
         return 'HP %s (%s)' % (coq_evs(h['k']), r)
-    return 'HG [%s] %s %s' % ('; '.join('(%s, %s)' % (coq_evs(k), coq_py(y)) for k, y in h['y']),
+    return 'HGK %d [%s] %s %s' % (h.get('xk', 0) if h['x'] else 0, '; '.join('(%s, %s)' % (coq_evs(k), coq_py(y)) for k, y in h['y']),
                               coq_evs(h['k']), b(h['x']))
 
 
@@ -371,6 +390,8 @@ class Gen:
             if rng.random() < p['g']:
                 ys = [[self.kids(d, 2), self.val(0.3)] for _ in range(rng.choice([0, 1, 1, 2, 3]))]
                 h = {'t': 'g', 'y': ys, 'k': self.kids(d, 2), 'x': int(rng.random() < p['gr'])}
+                if h['x']:
+                    h['xk'] = rng.choice([0, 0, 1, 1, 2])
                 if rng.random() < 0.3:
                     h['ret'] = rng.choice(VALUES)
                 e['h'].append(h)
@@ -381,6 +402,8 @@ class Gen:
                 else:
                     r = 'x' if rng.random() < p['r'] else self.val(0.3)
                 h = {'t': 'p', 'k': kids, 'r': r}
+                if r == 'x':
+                    h['xk'] = rng.choice([0, 0, 1, 1, 2])
                 if rng.random() < p['stop']:
                     h['st'] = 1
                 e['h'].append(h)
@@ -465,7 +488,7 @@ class C04(Prop):
     thorough_n = 6000
     rule = ('forests of scripted events (1-3 roots, <= 12 events, nesting depth <= 3, 0-4 handlers per event): plain '
             'handlers returning None / int (incl. 0) / list / raising, generator handlers with 0-3 yields (None / int / '
-            'list) ending in return or raise, every handler and every generator segment firing 0-2 child events; '
+            'list) ending in return or raise (raise kinds: Exception subclass, BaseException subclass, GeneratorExit), every handler and every generator segment firing 0-2 child events; '
             'success / failure / notify flags, events on one or two channels, 4 success_channels settings; task-set '
             'iteration order rotated per tick; plain handlers that fire a nested event and return its Value '
             '(`return self.fire(e)`); plain handlers that call event.stop() first. non-trivial = an event with >= 2 '
@@ -491,7 +514,7 @@ class C04(Prop):
         cases = [gen_case(rng, tier) for _ in range(n)]
         st = {'events': 0, 'success': 0, 'failure': 0, 'notify': 0, 'two_channels': 0, 'success_channels': 0,
               'plain_none': 0, 'plain_value': 0, 'plain_list': 0, 'plain_raise': 0, 'gen': 0, 'gen_raise': 0,
-              'gen_yields': 0, 'nested_events': 0, 'returns_nested_value': 0, 'raise_then_nested_value': 0, 'stop': 0, 'stop_before_other_handlers': 0, 'raise_and_gen_events': 0, 'multi_result_events': 0}
+              'gen_yields': 0, 'nested_events': 0, 'returns_nested_value': 0, 'raise_then_nested_value': 0, 'stop': 0, 'stop_before_other_handlers': 0, 'raise_kind_exception': 0, 'raise_kind_baseexception': 0, 'raise_kind_generatorexit': 0, 'raise_and_gen_events': 0, 'multi_result_events': 0}
         for c in cases:
             roots = {e['l'] for e in c['roots']}
             for e in walk_events(c['roots']):
@@ -507,6 +530,8 @@ class C04(Prop):
                     if h['t'] == 'g':
                         st['gen'] += 1
                         st['gen_raise'] += h['x']
+                        if h['x']:
+                            st[KIND_STAT[h.get('xk', 0)]] += 1
                         st['gen_yields'] += len(h['y'])
                         nr += sum(1 for y in h['y'] if y[1] is not None) + h['x']
                     elif is_nest(h['r']):
@@ -514,6 +539,8 @@ class C04(Prop):
                         st['stop'] += bool(h.get('st'))
                         nr += 1
                     else:
+                        if h['r'] == 'x':
+                            st[KIND_STAT[h.get('xk', 0)]] += 1
                         k = ('plain_raise' if h['r'] == 'x' else 'plain_none' if h['r'] is None else
                              'plain_list' if isinstance(h['r'], list) else 'plain_value')
                         st[k] += 1
@@ -566,6 +593,8 @@ class C04(Prop):
         def pos(x):
             return [p for p, y in enumerate(log) if y == x]
 
+        if obs.get('escaped'):
+            return 'isolation: %s raised by a handler escaped from tick()' % ', '.join(obs['escaped'])
         if not obs['quiet']:
             stuck = sorted(l for l, f in fin.items() if f[5] != 0)
             return 'hang: queue and task set did not drain in %d ticks (events still waiting: %r)' % (MAXTICKS, stuck)
